@@ -1,6 +1,6 @@
 (* C13 — Network FIFO between a pair of processes.
    Property theorems only; model in Proto/Model.v, proofs in Proto/Proofs.v. *)
-From Ergo Require Import Common.Base Proto.Model Proto.Proofs.
+From Ergo Require Import Common.Base Proto.Model Proto.Proofs Proto.Redial Proto.RedialProofs.
 Local Open Scope Z_scope.
 
 (* with order keeping on, the order byte derived from a process id is never 0 (0 = round robin) *)
@@ -48,6 +48,42 @@ Theorem C13_fifo_refuted_pool_grows :
     delivered <> sent.
 Proof. exact fifo_refuted_pool_grows. Qed.
 Print Assumptions C13_fifo_refuted_pool_grows.
+
+(* FIFO across link drops and re-dials (constant pool: a re-dialed link keeps its pool item): when
+   the link of a pair goes through epochs, each receiving a run of what was written to it (what a
+   drop cut is lost), the pair's messages that are delivered are exactly those runs, in the order
+   sent, none twice *)
+Theorem C13_fifo_redial : forall (A : Type) (link queue : A -> nat) (nl nq : nat) (received_on : nat -> list A)
+    (arrived : list (list A)) (delivered : list A) (sent_on : nat -> list A) (epochs_of : nat -> list (list A))
+    (P : A -> bool) (i0 q0 : nat),
+  (forall i x, In x (received_on i) -> link x = i) ->
+  length arrived = nq ->
+  (forall q, (q < nq)%nat ->
+     Merge (map (fun i => filter (fun x => Nat.eqb (queue x) q) (received_on i)) (seq 0 nl)) (nth q arrived [])) ->
+  Merge arrived delivered ->
+  (forall x, P x = true -> link x = i0 /\ queue x = q0) -> (i0 < nl)%nat -> (q0 < nq)%nat ->
+  received_on i0 = concat (epochs_of i0) -> Segments (sent_on i0) (epochs_of i0) ->
+  filter P delivered = filter P (concat (epochs_of i0)) /\
+  Subseq (filter P delivered) (filter P (sent_on i0)) /\
+  (NoDup (sent_on i0) -> NoDup (filter P delivered)).
+Proof. exact @fifo_redial. Qed.
+Print Assumptions C13_fifo_redial.
+
+(* what the link's receiver obtains over the epochs is the hypothesis `received_on i0 = concat ...`
+   above: the re-dial loop of Join yields the whole frames of every epoch, in order *)
+Theorem C13_redial_link_order : forall maxsize eps fss,
+  Forall2 (epoch_yields maxsize) eps fss -> Forall (fun fs => fs <> []) (tl fss) ->
+  link_received maxsize eps = concat fss.
+Proof. exact redial_exact. Qed.
+Print Assumptions C13_redial_link_order.
+
+(* serving the re-dialed socket with the first join's tail breaks it: 1 is delivered after 5 *)
+Theorem C13_redial_first_tail_refuted :
+  exists eps fss, Forall2 (epoch_yields 0) eps fss /\ Forall (fun fs => fs <> []) (tl fss) /\
+    link_received_first_tail 0 eps = map fr [1; 2; 3; 4; 5; 1; 2; 7; 8] /\
+    link_received_first_tail 0 eps <> concat fss /\ ~ NoDup (link_received_first_tail 0 eps).
+Proof. exact redial_first_tail_refuted. Qed.
+Print Assumptions C13_redial_first_tail_refuted.
 
 (* what byte 0 means, and that the pre-fix formula produced it for ids that are multiples of 255 *)
 Example C13_example :
